@@ -92,6 +92,9 @@ func parseScheduleMap(
 		case scheduleKeyRestart:
 			targets = restarts
 
+		default:
+			return fmt.Errorf("%w: %s", errScheduleKeyInvalid, key)
+
 		}
 
 		for _, v := range values {
